@@ -48,6 +48,11 @@ def plain_doc(seed, idx=0, sig=None):
     raw = bytes(rng.choice(b"abc \n") for _ in range(rng.choice([10, 400])))
     streams.append(d.add(Stream({b"Filter": N("FlateDecode"), b"QVT": Str(b"flate")}, zlib.compress(raw))))
     streams.append(d.add(Stream({b"Filter": [N("ASCIIHexDecode"), N("FlateDecode")], b"QVT": Str(rb(5))}, zlib.compress(raw).hex().encode() + b">")))
+    # image streams: /DCTDecode data is not decoded at qpdf's default decode level, so a writer copies such a stream as it is
+    for k in range(2):
+        streams.append(d.add(Stream({b"Type": N("XObject"), b"Subtype": N("Image"), b"Width": 2, b"Height": 2, b"ColorSpace": N("DeviceGray"),
+                                    b"BitsPerComponent": 8, b"Filter": N("DCTDecode"), b"QVT": Str(b"image %d" % k)},
+                                   b"\xff\xd8\xff\xe0" + rb(rng.choice([28, 60, 131])) + b"\xff\xd9")))
     c = D(Type=N("Catalog"), Pages=pages, Lang=Str(b"en-US"), QVData=nested, QVStreams=streams)
     r = rng.random()
     if r < 0.8:
@@ -443,6 +448,14 @@ class EncFile:
             for fo in p.get("force_overrides", []):      # [stream rank, form, name hex]
                 if fo[0] < len(streams):
                     self.override[streams[fo[0]]] = (fo[1], bytes.fromhex(fo[2]))
+            # [selector, form, name hex]: dctK = K-th /DCTDecode stream, plainK = K-th stream without a filter (not metadata)
+            dcts = [n for n in streams if E.objects[n].d.get(b"Filter") == Name(b"DCTDecode")]
+            plains = [n for n in streams if b"Filter" not in E.objects[n].d and E.objects[n].d.get(b"Type") != Name(b"Metadata") and len(E.objects[n].data) > 0]
+            for sel, form, nameh in p.get("force_named", []):
+                pool = dcts if sel.startswith("dct") else plains
+                k = int(sel[3:] if sel.startswith("dct") else sel[5:])
+                if k < len(pool):
+                    self.override[pool[k]] = (form, bytes.fromhex(nameh))
             for n, (form, name) in self.override.items():
                 apply_crypt(E.objects[n].d, form, name)
         # the encryption dictionary
